@@ -10,7 +10,8 @@ import (
 
 // runTestDriver pipes op lines through a tagged `go test -c` binary of a package-main package of
 // /repo (hook file zz_verif_driver_test.go, test TestVerifDriver).  With isolate=true the binary runs
-// in private mount+network namespaces with a tmpfs on /run.
+// in private mount+network namespaces with a tmpfs on /run and one on /etc (terway-cli reads its
+// configuration from the constant path /etc/eni).
 func runTestDriver(binEnv string, ops []string, isolate bool) ([]string, error) {
 	bin := os.Getenv(binEnv)
 	if bin == "" {
@@ -27,7 +28,7 @@ func runTestDriver(binEnv string, ops []string, isolate bool) ([]string, error) 
 	}
 	var cmd *exec.Cmd
 	if isolate {
-		cmd = exec.Command("unshare", "-n", "-m", "sh", "-c", `mount -t tmpfs tmpfs /run && exec "$0" -test.run '^TestVerifDriver$' -test.count=1`, bin)
+		cmd = exec.Command("unshare", "-n", "-m", "sh", "-c", `mount -t tmpfs tmpfs /run && mount -t tmpfs tmpfs /etc && exec "$0" -test.run '^TestVerifDriver$' -test.count=1`, bin)
 	} else {
 		cmd = exec.Command(bin, "-test.run", "^TestVerifDriver$", "-test.count=1")
 	}
